@@ -310,7 +310,7 @@ func reduceDirectedMultiplex(g DirectedMultiplex, communities [][]graph.Node, we
 		}
 		communityOf := make(map[int64]int, len(nodes))
 		for i, n := range nodes {
-			r.nodes[i] = multiplexCommunity{id: i, nodes: []graph.Node{n}, weights: make([]float64, depth(weights))}
+			r.nodes[i] = multiplexCommunity{id: i, nodes: []graph.Node{n}, weights: make([]float64, g.Depth())}
 			communityOf[n.ID()] = i
 		}
 		for i := range r.layers {
@@ -391,7 +391,7 @@ func reduceDirectedMultiplex(g DirectedMultiplex, communities [][]graph.Node, we
 	}
 	communityOf := make(map[int64]int, commNodes)
 	for i, comm := range communities {
-		r.nodes[i] = multiplexCommunity{id: i, nodes: comm, weights: make([]float64, depth(weights))}
+		r.nodes[i] = multiplexCommunity{id: i, nodes: comm, weights: make([]float64, g.Depth())}
 		for _, n := range comm {
 			communityOf[n.ID()] = i
 		}
